@@ -212,9 +212,9 @@ def main(argv=None):
     os.makedirs(os.path.join(C.REPLAYS, prop), exist_ok=True)
     if violations:
         # Replaying is expensive (a second CBMC run with trace generation per harness): candidates are replayed cheapest first,
-        # four at a time, and replaying stops once MAX_CONFIRMED counterexamples have reproduced natively -- one reproduced
+        # four at a time, and replaying stops once MAX_CONFIRMED (default 1) counterexamples have reproduced natively -- one reproduced
         # counterexample already decides the exit code. Candidates that were not replayed are listed as such (never as VIOLATION).
-        MAX_CONFIRMED = int(os.environ.get("VERIF_MAX_REPLAYS", "2"))
+        MAX_CONFIRMED = int(os.environ.get("VERIF_MAX_REPLAYS", "1"))
         violations.sort(key=lambda x: x[1].time)
         rlock = threading.Lock()
         pool = K.Pool(min(3, len(violations)))
@@ -238,6 +238,16 @@ def main(argv=None):
                 if ok:
                     return ("confirmed", (h, rp, unknown, "reproduced natively (wf-native " + h.kv["native"] + "): " + out.strip()[:200]))
                 return ("not", (h, "native reconstruction found no witness: " + out.strip()[:200]))
+            bt_first = K.boundary_candidates(h)
+            if bt_first:
+                # harnesses that declare their few small kani::any() draws: the cheap native boundary scan is tried BEFORE the playback
+                # run (which repeats the verification with a full trace: minutes to hours, up to 40 GB)
+                rep0, _ = K.native_replay(h, bt_first, timeout=600,
+                                          fail_locs={(os.path.basename(f['file']), f['line']) for f in unknown}, strict=True)
+                if rep0:
+                    with open(rp, "w") as f:
+                        f.write(f"// harness {h.full} ({h.desc})\n// replay: cd /verif && ./check --replay {rp}\n" + hdr + "\n" + bt_first)
+                    return ("confirmed", (h, rp, unknown, "reproduced natively (boundary-candidate scan through kani::concrete_playback_run, dev profile)"))
             d = pool.acquire()
             try:
                 tests, pout = K.concrete_playback(h, d, base_time=r.time)
